@@ -71,8 +71,8 @@ theorem inv2_carry (g : Ghost) (r : CReq) (σ : Slot) (x : Tok)
 
 theorem inv_compile (env : Env) (g : Ghost) (st : State) (r : CReq)
     (h1 : Inv1 g st) (h2 : Inv2 g st) :
-    Inv1 (g.supplyAll r.slots) (stepCompile env st r).1 ∧
-    Inv2 (g.supplyAll r.slots) (stepCompile env st r).1 := by
+    Inv1 (g.supplyAll r.slots) (stepCompileRun env st r).1 ∧
+    Inv2 (g.supplyAll r.slots) (stepCompileRun env st r).1 := by
   constructor
   · intro i σ x hx
     obtain ⟨hmono, _, hslot⟩ := supplyAll_slots g r σ
@@ -146,29 +146,43 @@ theorem safe_of_inv1 (g : Ghost) (st : State) (r : CReq) (h1 : Inv1 g st)
 /-! ### history-level theorems -/
 
 theorem noReturn_exec (env : Env) (h : List Req) :
-    ∀ (g : Ghost) (st : State), Inv1 g st → Inv2 g st → ∀ q, NoReturnFrom g (h ++ [q]) →
+    ∀ (g : Ghost) (st : State), Inv1 g st → Inv2 g st → NoLostRequest h →
+      ∀ q, NoReturnFrom g (h ++ [q]) →
       ∃ g', Inv1 g' (exec env st h) ∧ Inv2 g' (exec env st h) ∧ NoReturnFrom g' [q] := by
   induction h with
-  | nil => intro g st h1 h2 q hq; exact ⟨g, h1, h2, hq⟩
+  | nil => intro g st h1 h2 _ q hq; exact ⟨g, h1, h2, hq⟩
   | cons x xs ih =>
-    intro g st h1 h2 q hq
+    intro g st h1 h2 hr q hq
+    have hr' : NoLostRequest xs := fun q' hq' => hr q' (by simp [hq'])
     cases x with
     | compile r =>
       simp only [List.cons_append, NoReturnFrom] at hq
       obtain ⟨i1, i2⟩ := inv_compile env g st r h1 h2
-      exact ih _ _ i1 i2 q hq.2
+      simp only [exec, step]
+      rw [stepCompile_of_read env st r (hr (.compile r) (by simp))]
+      exact ih _ _ i1 i2 hr' q hq.2
     | tx r =>
       simp only [List.cons_append, NoReturnFrom] at hq
       obtain ⟨i1, i2⟩ := inv_tx env g st r h1 h2
-      exact ih _ _ i1 i2 q hq.2
+      exact ih _ _ i1 i2 hr' q hq.2
+
+/-- a request the worker cannot read compiles nothing -/
+theorem usedSupplied_of_run (env : Env) (st : State) (r : CReq)
+    (h : (stepCompileRun env st r).2.usedSupplied r) : (stepCompile env st r).2.usedSupplied r := by
+  by_cases hl : r.out = .requestUnreadable
+  · rw [stepCompile_of_lost env st r hl]
+    obtain ⟨_, _, _, hu, _⟩ := stepCompileLost_spec st r
+    intro u hu'; rw [hu] at hu'; cases hu'
+  · rw [stepCompile_of_read env st r hl]; exact h
 
 /-- C17_used under "identities never come back" -/
 theorem used_noReturn (env : Env) (init : Side) (pre : List Req) (r : CReq)
-    (h : NoReturn init (pre ++ [.compile r])) :
+    (hr : NoLostRequest pre) (h : NoReturn init (pre ++ [.compile r])) :
     (stepCompile env (exec env (initState init) pre) r).2.usedSupplied r := by
   obtain ⟨i1, i2⟩ := inv_init init
-  obtain ⟨g', h1, _, hq⟩ := noReturn_exec env pre _ _ i1 i2 _ h
+  obtain ⟨g', h1, _, hq⟩ := noReturn_exec env pre _ _ i1 i2 hr _ h
   simp only [NoReturnFrom] at hq
+  apply usedSupplied_of_run
   intro u hu
   exact (compile_used_exact env _ r u hu).2 (safe_of_inv1 g' _ r h1 hq.1)
 
@@ -185,10 +199,10 @@ theorem txRoot_of (env : Env) (st : State) (r : TReq)
   · rw [h3] at hs; cases hs; rfl
 
 theorem txRoot_noReturn (env : Env) (init : Side) (pre : List Req) (r : TReq)
-    (h : NoReturn init (pre ++ [.tx r])) :
+    (hr : NoLostRequest pre) (h : NoReturn init (pre ++ [.tx r])) :
     (stepTx env (exec env (initState init) pre) r).2.usedRoot r := by
   obtain ⟨i1, i2⟩ := inv_init init
-  obtain ⟨g', h1, _, hq⟩ := noReturn_exec env pre _ _ i1 i2 _ h
+  obtain ⟨g', h1, _, hq⟩ := noReturn_exec env pre _ _ i1 i2 hr _ h
   simp only [NoReturnFrom] at hq
   apply txRoot_of
   intro hb
@@ -197,24 +211,25 @@ theorem txRoot_noReturn (env : Env) (init : Side) (pre : List Req) (r : TReq)
   · exact absurd h hq.1
 
 /-- C17_belief: only status 2 can break "belief ⇒ actual" -/
-theorem agree_exec (env : Env) (init : Side) (h : List Req) (hl : NoStatus2 h) (w : Nat) :
-    Agree (exec env (initState init) h w) :=
-  fun σ => agreeAt_exec env σ h _ (agreeAt_init init σ) hl w
+theorem agree_exec (env : Env) (init : Side) (h : List Req) (hl : NoStatus2 h)
+    (hr : NoLostRequest h) (w : Nat) : Agree (exec env (initState init) h w) :=
+  fun σ => agreeAt_exec env σ h _ (agreeAt_init init σ) hl hr w
 
 theorem safe_of_agree (ws : WState) (r : CReq) (h : Agree ws) : Safe ws r :=
   fun _ p _ hbel => h p.1 p.2 hbel
 
 theorem used_noStatus2 (env : Env) (init : Side) (pre : List Req) (r : CReq)
-    (hl : NoStatus2 pre) :
+    (hl : NoStatus2 pre) (hr : NoLostRequest pre) :
     (stepCompile env (exec env (initState init) pre) r).2.usedSupplied r := by
+  apply usedSupplied_of_run
   intro u hu
-  exact (compile_used_exact env _ r u hu).2 (safe_of_agree _ r (agree_exec env init pre hl r.w))
+  exact (compile_used_exact env _ r u hu).2 (safe_of_agree _ r (agree_exec env init pre hl hr r.w))
 
 theorem txRoot_noStatus2 (env : Env) (init : Side) (pre : List Req) (r : TReq)
-    (hl : NoStatus2 pre) :
+    (hl : NoStatus2 pre) (hr : NoLostRequest pre) :
     (stepTx env (exec env (initState init) pre) r).2.usedRoot r := by
   apply txRoot_of
-  exact agreeAt_exec env _ pre _ (agreeAt_init init _) hl r.w _
+  exact agreeAt_exec env _ pre _ (agreeAt_init init _) hl hr r.w _
 
 theorem lastLe_init (s : Side) (i : Nat) : LastLe (initState s i) := by
   intro x hx; simp [initState] at hx
@@ -259,9 +274,9 @@ theorem reuse_only_to_holder (env : Env) (init : Side) (pre : List Req) (r : TRe
 /-- a request that ends in `FailedStateSync` changes no believed slot and leaves
     every worker process exactly as it was -/
 theorem syncFail_changes_nothing (env : Env) (st : State) (r : CReq)
-    (h : (stepCompile env st r).2.res = .syncFail) (i : Nat) :
-    (∀ σ, ((stepCompile env st r).1 i).bel.get σ = (st i).bel.get σ) ∧
-      ((stepCompile env st r).1 i).act = (st i).act := by
+    (h : (stepCompileRun env st r).2.res = .syncFail) (i : Nat) :
+    (∀ σ, ((stepCompileRun env st r).1 i).bel.get σ = (st i).bel.get σ) ∧
+      ((stepCompileRun env st r).1 i).act = (st i).act := by
   by_cases hi : i = r.w
   case neg => rw [stepCompile_frame env st r i hi]; exact ⟨fun _ => rfl, rfl⟩
   subst hi
@@ -270,7 +285,7 @@ theorem syncFail_changes_nothing (env : Env) (st : State) (r : CReq)
     refine ⟨(stepCompile_bel_fail env st r hW).1, ?_⟩
     have hc := wsync_fail_clean env _ _ _ hW
     revert hW hc
-    unfold stepCompile
+    unfold stepCompileRun
     simp only []
     generalize wsync env (st r.w).act r.db (preargs (st r.w).bel r) = W
     obtain ⟨a', sres⟩ := W
@@ -282,7 +297,7 @@ theorem syncFail_changes_nothing (env : Env) (st : State) (r : CReq)
     exfalso
     obtain ⟨b', hb'⟩ := withAck_defined (st r.w).bel r
     revert h hW
-    unfold stepCompile
+    unfold stepCompileRun
     simp only []
     generalize wsync env (st r.w).act r.db (preargs (st r.w).bel r) = W
     obtain ⟨a', sres⟩ := W
@@ -294,9 +309,9 @@ theorem syncFail_changes_nothing (env : Env) (st : State) (r : CReq)
 
 /-- the `assert`s of `sync_worker_state_cb` never fire -/
 theorem no_cbAssert (env : Env) (st : State) (r : CReq) :
-    (stepCompile env st r).2.res ≠ .cbAssert := by
+    (stepCompileRun env st r).2.res ≠ .cbAssert := by
   obtain ⟨b', hb'⟩ := withAck_defined (st r.w).bel r
-  unfold stepCompile
+  unfold stepCompileRun
   simp only []
   generalize wsync env (st r.w).act r.db (preargs (st r.w).bel r) = W
   obtain ⟨a', sres⟩ := W
@@ -318,8 +333,49 @@ theorem viaMemo_faithful (memo : Tok → Tok) (h : MemoFaithful memo) (p : Parts
 /-- with a faithful memo the explicit-memo transition is the model's transition -/
 theorem stepCompileMemo_faithful (memo : Tok → Tok) (h : MemoFaithful memo) (env : Env)
     (st : State) (r : CReq) : stepCompileMemo memo env st r = stepCompile env st r := by
+  have : stepCompileRunMemo memo env st r = stepCompileRun env st r := by
+    unfold stepCompileRunMemo stepCompileRun
+    simp only [viaMemo_faithful memo h]
+    rfl
   unfold stepCompileMemo stepCompile
-  simp only [viaMemo_faithful memo h]
-  rfl
+  rw [this]
+
+/-! ### the same facts for `stepCompile` (requests the worker cannot read included) -/
+
+theorem compile_used_exact' (env : Env) (st : State) (r : CReq) (u : Used)
+    (h : (stepCompile env st r).2.used = some u) : u = r.supplied ↔ Safe (st r.w) r := by
+  by_cases hl : r.out = .requestUnreadable
+  · rw [stepCompile_of_lost env st r hl] at h
+    obtain ⟨_, _, _, hu, _⟩ := stepCompileLost_spec st r
+    rw [hu] at h; cases h
+  · rw [stepCompile_of_read env st r hl] at h
+    exact compile_used_exact env st r u h
+
+theorem syncFail_changes_nothing' (env : Env) (st : State) (r : CReq)
+    (h : (stepCompile env st r).2.res = .syncFail) (i : Nat) :
+    (∀ σ, ((stepCompile env st r).1 i).bel.get σ = (st i).bel.get σ) ∧
+      ((stepCompile env st r).1 i).act = (st i).act := by
+  by_cases hl : r.out = .requestUnreadable
+  · rw [stepCompile_of_lost env st r hl] at h
+    obtain ⟨_, _, _, _, hres⟩ := stepCompileLost_spec st r
+    rw [hres] at h; cases h
+  · rw [stepCompile_of_read env st r hl] at h ⊢
+    exact syncFail_changes_nothing env st r h i
+
+theorem no_cbAssert' (env : Env) (st : State) (r : CReq) :
+    (stepCompile env st r).2.res ≠ .cbAssert := by
+  by_cases hl : r.out = .requestUnreadable
+  · rw [stepCompile_of_lost env st r hl]
+    obtain ⟨_, _, _, _, hres⟩ := stepCompileLost_spec st r
+    rw [hres]; intro h; cases h
+  · rw [stepCompile_of_read env st r hl]; exact no_cbAssert env st r
+
+theorem compile_bel_slot' (env : Env) (st : State) (r : CReq) (hl : r.out ≠ .requestUnreadable)
+    (σ : Slot) :
+    ((stepCompile env st r).1 r.w).bel.get σ = (st r.w).bel.get σ ∨
+      ∃ t, (preargs (st r.w).bel r).at r.db σ = some t ∧
+        ((stepCompile env st r).1 r.w).bel.get σ = some t ∧
+        ((stepCompile env st r).1 r.w).act.get σ = some t := by
+  rw [stepCompile_of_read env st r hl]; exact compile_bel_slot env st r σ
 
 end EdbVerif.Sync
